@@ -28,7 +28,10 @@ TRUSTED_BASE = [
     "soundness of the modelled state_to_graph / stabilizer_to_graph for every input and every candidate GF(2) inverse; completeness (the modelled state_to_graph "
     "returns on every stabilizer state, n >= 1, with exact GF(2) inverses: state_to_graph_complete / state_to_graph_correct); round trip on graph states)",
     "correspondence of Model/StateToGraph.lean with state_rep_conversion.py: exact comparison (graph, gate list, error class) on every generated input — testing, not proof",
-    "the floating-point parts of the density-matrix side (negativity-based edge detection, density matrices) are compared numerically per input, not proved",
+    "density -> graph: proved at the level of stabilizer groups (the pair group of |G> at (i, j) is the two-vertex graph state with an edge iff A[i,j]: "
+    "density_to_graph_pair_state_partial) and on exact 4x4 rational matrices (negativity 0 resp. 1/2: density_to_graph_pair_negativity); cited, not proved: "
+    "<0_M| rho_S |0_M> = 2^-n * sum of the restrictions of the X/Y-free elements, uniqueness of the Jordan decomposition; the floating-point parts "
+    "(dense matrices, eigenvalues, purity test) are compared numerically per input: project_and_remove and negativity of every pair against the two proved states",
     "harness dense reference (n <= 5) and independent signed-group canonicaliser",
 ]
 ASSUMPTIONS = [
@@ -159,6 +162,31 @@ def adj_of(g, n):
     return nx.to_numpy_array(g, nodelist=sorted(g.nodes())).astype(int)
 
 
+# the two two-qubit states of theorem C08.density_to_graph_pair_state_partial / Proofs/StateToGraphNegativity.lean (exact rationals there)
+RHO_PLUS = np.full((4, 4), 0.25)
+RHO_EDGE = np.outer([1, 1, 1, -1], [1, 1, 1, -1]) / 4.0
+
+
+def check_pair_states(res, adj, rho, inp):
+    """the intermediate quantities of `_density_to_graph_pure` on |G><G| against what the Lean theorems say they are: for every pair i < j,
+    `project_and_remove` (all other qubits projected onto |0> and traced out) is the graph state of the induced pair (|++> or CZ|++>), its
+    negativity is 0 resp. 1/2 — numerically, 1e-9"""
+    from graphiq.backends.density_matrix import functions as dmf
+
+    n = adj.shape[0]
+    for i in range(n):
+        for j in range(i + 1, n):
+            mask = [0 if k in (i, j) else 1 for k in range(n)]
+            rho_ij = np.asarray(dmf.project_and_remove(rho.copy(), mask))
+            want = RHO_EDGE if adj[i, j] else RHO_PLUS
+            neg = float(dmf.negativity(rho_ij, 2, 2))
+            if not np.allclose(rho_ij, want, atol=1e-9) or abs(neg - (0.5 if adj[i, j] else 0.0)) > 1e-9:
+                res.exact_break("density_to_graph:pair-state", input=dict(inp, pair=[i, j]), impl=[np.round(rho_ij.real, 6).tolist(), neg],
+                                model="graph state of the induced pair: " + ("CZ|++>, negativity 1/2" if adj[i, j] else "|++>, negativity 0"))
+            else:
+                res.traces_validated += 1
+
+
 def check_graph(ctx, res, drv, adj, pending):
     import networkx as nx
     from graphiq.backends import state_rep_conversion as rc
@@ -188,6 +216,7 @@ def check_graph(ctx, res, drv, adj, pending):
             back = rc.density_to_graph(rho_ref.copy())
             if not np.array_equal(adj_of(back, n), adj):
                 res.violation("density_to_graph:wrong-graph", "density_to_graph does not recover G from |G><G|", input=inp, impl=tu.bits(adj_of(back, n)))
+            check_pair_states(res, adj, rho_ref, inp)
         except Exception as e:  # noqa: BLE001
             res.violation(f"density_conversion:raises:{err_class(e)}", f"graph<->density conversion raised: {str(e)[:100]}", input=inp)
     # stabilizer -> graph in random generating sets
